@@ -13,7 +13,7 @@ import numpy as np
 
 from harness import stabutil as su
 from harness import tabutil as tu
-from harness.common import Driver, Result, err_class
+from harness.common import Driver, Result, err_class, impl_guard
 
 LEVEL = "proof"
 TRUSTED_BASE = [
@@ -42,8 +42,9 @@ def check_state(res, st, tag, pending, graph_adj=None):
         h = [int(v) for v in hf.height_func_list(x.copy(), z.copy())]
         hmax = int(hf.height_max(x.copy(), z.copy()))
         hd = hf.height_dict(x.copy(), z.copy())
+        hd = {int(k): int(v) for k, v in dict(hd).items()}  # a result that is not a mapping of integers is reported here, not a harness crash
     except Exception as e:  # noqa: BLE001
-        res.violation(f"height:raises:{err_class(e)}", "height function raised on a valid generating set", input=inp)
+        res.violation(f"height:raises:{err_class(e)}", "height function raised (or returned something that is not a list / dictionary of integers) on a valid generating set", input=inp)
         return
     if h != spec:
         res.violation("height:not-entropy", f"height_func_list {h} differs from the bipartite entanglement entropy {spec}", input=inp)
@@ -194,6 +195,20 @@ def solver_budget(res, rng, graphs):
         res.branch([f"solver:ne={spec}"])
 
 
+N_STATES = {1: 6, 2: 60, 3: 1080}  # number of n-qubit stabilizer states: 2^n * prod_{k=1..n} (2^k + 1)
+
+
+def check_pool(res, n):
+    """the 'exhaustive' pools are enumerated with graphiq's own gate functions (BFS from |0..0>, de-duplicated by an independent
+    canonical form): if a gate function changes, the pool can silently shrink while the evidence still says exhaustive"""
+    pool = su.all_states(n)
+    bad = [t for t in pool if not tu.is_valid(t)]
+    if len(pool) != N_STATES[n] or bad:
+        res.exact_break(f"coverage collapsed: all_states({n})", input={"n": n},
+                        impl=f"the enumeration through hadamard_gate / phase_gate / cnot_gate reached {len(pool)} states ({len(bad)} not symplectic)",
+                        model=f"{N_STATES[n]} stabilizer states")
+
+
 def run(ctx, budget=1.0):
     import networkx as nx
 
@@ -205,45 +220,57 @@ def run(ctx, budget=1.0):
     pending = []
     nmax_ex = 2 if ctx.quick else 3
     regs = 4 if ctx.quick else 8
-    for n in range(1, nmax_ex + 1):
-        for t in su.all_states(n):
-            for _ in range(regs):
-                check_state(res, su.regauge_stab(su.regauge_clifford(t, rng).to_stabilizer(), rng), f"all-states-n{n}", pending)
-        flush(res, drv, pending)
-    if ctx.quick:
-        for t in rng.sample(su.all_states(3), 200):
-            check_state(res, su.regauge_stab(t.to_stabilizer(), rng), "sample-n3", pending)
-        flush(res, drv, pending)
-    # graphs: all graphs, in the graph gauge and re-gauged, all vertex orders for n<=4 (thorough) / identity order (quick)
-    for n in range(1, 5 if ctx.quick else 6):
-        for adj in all_adj(n):
-            orders = list(itertools.permutations(range(n))) if (n <= 3 or (not ctx.quick and n <= 4)) else [tuple(rng.sample(range(n), n)) for _ in range(2)]
-            for p in orders:
-                a = adj[np.ix_(p, p)]
-                st = graph_state_stab(a)
-                check_state(res, st, f"graph-n{n}", pending, graph_adj=a)
-                if rng.random() < 0.3:
-                    check_state(res, su.regauge_stab(st, rng), f"graph-regauged-n{n}", pending, graph_adj=a)
-        flush(res, drv, pending)
-    for _ in range(int((60 if ctx.quick else 600) * budget)):
-        n = rng.randrange(4, 13 if ctx.quick else 41)
-        check_state(res, su.regauge_stab(su.random_state(rng, n).to_stabilizer(), rng), "random", pending)
-        if rng.random() < 0.5:
-            a = nx.to_numpy_array(nx.gnp_random_graph(n, rng.random(), seed=rng.getrandbits(30))).astype(int)
-            check_state(res, su.regauge_stab(graph_state_stab(a), rng), "random-graph", pending, graph_adj=None)
-            check_state(res, graph_state_stab(a), "random-graph", pending, graph_adj=a)
-        if len(pending) > 60:
+    # every stream runs under common.impl_guard: the generators are built from graphiq's own constructors and gate functions
+    # (su.all_states, su.random_state, StabilizerTableau(...)); an exception of graphiq there, or in a helper called outside the try
+    # blocks, is reported (exit 1) instead of leaving run() as a harness crash (exit 2)
+    with impl_guard(res, "height:all-states", promise=True):
+        for n in range(1, nmax_ex + 1):
+            check_pool(res, n)
+            for t in su.all_states(n):
+                for _ in range(regs):
+                    check_state(res, su.regauge_stab(su.regauge_clifford(t, rng).to_stabilizer(), rng), f"all-states-n{n}", pending)
             flush(res, drv, pending)
-    flush(res, drv, pending)
-    rref_cases(res, drv, rng, [su.regauge_stab(su.random_state(rng, rng.randrange(1, 9)).to_stabilizer(), rng) for _ in range(150 if ctx.quick else 1500)])
-    malformed(res, drv, rng, 60)
+        if ctx.quick:
+            check_pool(res, 3)
+            for t in rng.sample(su.all_states(3), 200):
+                check_state(res, su.regauge_stab(t.to_stabilizer(), rng), "sample-n3", pending)
+            flush(res, drv, pending)
+    # graphs: all graphs, in the graph gauge and re-gauged, all vertex orders for n<=4 (thorough) / identity order (quick)
+    with impl_guard(res, "height:graphs", promise=True):
+        for n in range(1, 5 if ctx.quick else 6):
+            for adj in all_adj(n):
+                orders = list(itertools.permutations(range(n))) if (n <= 3 or (not ctx.quick and n <= 4)) else [tuple(rng.sample(range(n), n)) for _ in range(2)]
+                for p in orders:
+                    a = adj[np.ix_(p, p)]
+                    st = graph_state_stab(a)
+                    check_state(res, st, f"graph-n{n}", pending, graph_adj=a)
+                    if rng.random() < 0.3:
+                        check_state(res, su.regauge_stab(st, rng), f"graph-regauged-n{n}", pending, graph_adj=a)
+            flush(res, drv, pending)
+    with impl_guard(res, "height:random", promise=True):
+        for _ in range(int((60 if ctx.quick else 600) * budget)):
+            n = rng.randrange(4, 13 if ctx.quick else 41)
+            check_state(res, su.regauge_stab(su.random_state(rng, n).to_stabilizer(), rng), "random", pending)
+            if rng.random() < 0.5:
+                a = nx.to_numpy_array(nx.gnp_random_graph(n, rng.random(), seed=rng.getrandbits(30))).astype(int)
+                check_state(res, su.regauge_stab(graph_state_stab(a), rng), "random-graph", pending, graph_adj=None)
+                check_state(res, graph_state_stab(a), "random-graph", pending, graph_adj=a)
+            if len(pending) > 60:
+                flush(res, drv, pending)
+        flush(res, drv, pending)
+    with impl_guard(res, "rref"):
+        rref_cases(res, drv, rng, [su.regauge_stab(su.random_state(rng, rng.randrange(1, 9)).to_stabilizer(), rng) for _ in range(150 if ctx.quick else 1500)])
+    with impl_guard(res, "height:malformed"):
+        malformed(res, drv, rng, 60)
     # solver emitter budget
     graphs = [a for n in range(2, 5) for a in all_adj(n)]
     graphs += [nx.to_numpy_array(nx.gnp_random_graph(rng.randrange(4, 9), 0.3 + 0.6 * rng.random(), seed=rng.getrandbits(30))).astype(int)
                for _ in range(25 if ctx.quick else 300)]
-    solver_budget(res, rng, graphs)
-    graph_path(res, rng, 120 if ctx.quick else 1500)
-    res.exhaustive = True
+    with impl_guard(res, "solver", promise=True):
+        solver_budget(res, rng, graphs)
+    with impl_guard(res, "graph-path", promise=True):
+        graph_path(res, rng, 120 if ctx.quick else 1500)
+    res.exhaustive = not res.extra.get("streams_aborted")
     res.notes.append(f"exhaustive over all stabilizer states n<={nmax_ex} (x{regs} gauges) and all graphs on <= {4 if ctx.quick else 5} vertices (all vertex orders n<=3)")
     res.extra["driver_lines"] = drv.n_lines
     drv.close()
